@@ -180,9 +180,70 @@ static void exec_lp(void)
   if (mc_want_sample()) mc_sample("%s", sig);
 }
 
+/* ---- quoted values that span several lines: "a value starting with a quote being one item" ---- */
+static int q_sep, q_lines, q_ind, q_trail, q_before, q_rel, q_cfg;
+static void gen_q(void) { q_cfg = mc_choose(3); q_sep = mc_choose(3); q_lines = 2 + mc_choose(2); q_ind = mc_choose(3); q_trail = mc_choose(6); q_before = mc_choose(4); q_rel = mc_choose(2); }
+static void exec_q(void)
+{
+  static const char *QD[3] = { "=", ":=", "=:" }   /* non-blank delimiter sets: only they have continuation lines */, *SEP[3] = { "=", " = ", "=\t" }, *IND[3] = { "  ", "\t", "    " };
+  static const char *BEFORE[4] = { "", "# block\n", "n=1\n", "[S]\n" };
+  const char *TRAIL[6] = { "", "   ", "\t", "   # closing", " #c", "  \t  # closing" };
+  const char *TCOM[6] = { NULL, NULL, NULL, " closing", "c", " closing" };
+  sbuf f = {0}, item = {0}, sig = {0}, e1 = {0};
+  sb_puts(&item, "\"line one");
+  for (int l = 1; l < q_lines; l++) sb_printf(&item, "\n%sline %d", IND[q_ind], l + 1);
+  sb_puts(&item, "\"");
+  sb_printf(&f, "%sk%s%s%s\nafter=1\n", BEFORE[q_before], SEP[q_sep], item.s, TRAIL[q_trail]);
+  sb_puts(&sig, "file=\""); sb_put_esc(&sig, f.s, f.len); sb_printf(&sig, "\" delim=\"%s\" comment=\"#\" read-as=%s", QD[q_cfg], q_rel ? "f.conf" : "absolute path");
+  snprintf(mc_case_sig, sizeof mc_case_sig, "%s", sig.s);
+  mc_log("%s\n", sig.s);
+  mc_write_file(abspath, f.s, f.len);
+  econf_file *kf = NULL;
+  econf_err rc = econf_readFile(&kf, q_rel ? "f.conf" : abspath, QD[q_cfg], "#");
+  mc_st->libcalls++;
+  if (rc != ECONF_SUCCESS || !kf) mc_fail(sig.s, "file with a quoted value over %d lines cannot be read: %d; %s", q_lines, (int)rc, sig.s);
+  else {
+    const char *g = q_before == 3 ? "S" : NULL;
+    econf_ext_value *ev = NULL;
+    rc = econf_getExtValue(kf, g, "k", &ev);
+    mc_st->libcalls++;
+    if (rc != ECONF_SUCCESS || !ev) mc_fail(sig.s, "econf_getExtValue(k) failed: %d; %s", (int)rc, sig.s);
+    else {
+      int nv = 0; while (ev->values && ev->values[nv]) nv++;
+      int lines_before = q_before ? 1 : 0;
+      if (nv != 1) mc_fail(sig.s, "a value starting with a quote is reported as %d items instead of one; %s", nv, sig.s);
+      else if (strcmp(ev->values[0], item.s)) { sb_put_escs(&e1, ev->values[0]); mc_fail(sig.s, "values[0] = \"%s\": not the quoted text from the opening to the closing quote without outer blanks; %s", e1.s, sig.s); }
+      if (!ev->file || strcmp(ev->file, abspath)) mc_fail(sig.s, "file = \"%s\", expected \"%s\"; %s", ev->file ? ev->file : "<NULL>", abspath, sig.s);
+      if (ev->line_number != (uint64_t)(lines_before + q_lines)) mc_fail(sig.s, "line_number = %llu, the entry ends on line %d; %s", (unsigned long long)ev->line_number, lines_before + q_lines, sig.s);
+      if (q_before == 1 && !streq0(ev->comment_before_key, " block")) mc_fail(sig.s, "comment_before_key = \"%s\", expected \" block\"; %s", ev->comment_before_key ? ev->comment_before_key : "", sig.s);
+      { sbuf a = {0}; join_nonempty(ev->comment_after_value, &a);
+        if (strcmp(a.s, TCOM[q_trail] ? TCOM[q_trail] : "")) mc_fail(sig.s, "comment_after_value (non-empty parts) = \"%s\", the trailing comment text is \"%s\"; %s", a.s, TCOM[q_trail] ? TCOM[q_trail] : "", sig.s);
+        sb_free(&a); }
+      econf_freeExtValue(ev);
+    }
+    char *v = NULL;
+    if (econf_getStringValue(kf, g, "after", &v) != ECONF_SUCCESS || !v || strcmp(v, "1")) mc_fail(sig.s, "the key behind the quoted value is not delivered (after=%s); %s", v ? v : "<none>", sig.s);
+    free(v);
+    econf_freeFile(kf);
+  }
+  mc_st->compared++; mc_st->nontrivial++;
+  mc_outcome((uint64_t)(((((q_cfg * 3 + q_sep) * 2 + q_lines) * 3 + q_ind) * 6 + q_trail) * 4 + q_before));
+  if (mc_want_sample()) mc_sample("%s", sig.s);
+  sb_free(&f); sb_free(&item); sb_free(&sig); sb_free(&e1);
+}
+
 int main(int argc, char **argv)
 {
   mc_args(argc, argv);
+  if (mc_opt.param[3] == 2) {
+    mc_split = 2;
+    snprintf(abspath, sizeof abspath, "%s/f.conf", mc_work);
+    if (chdir(mc_work) != 0) mc_die("chdir");
+    if (mc_opt.case_id) return mc_replay(gen_q, exec_q, mc_opt.case_id);
+    if (mc_explore(gen_q, exec_q, 0, 0)) mc_st->bound_completed = 0;
+    mc_finish();
+    return 0;
+  }
   if (mc_opt.param[3]) {
     mc_split = 2;
     if (chdir(mc_work) != 0) mc_die("chdir");
